@@ -323,6 +323,11 @@ def expr_b(draw, env, depth, pure=True):
         if draw(st.booleans()):
             return ["f", fn, [], [expr_n(draw, env, depth - 1), expr_n(draw, env, 0)]]
         return ["f", fn, [], [expr_s(draw, env, depth - 1), expr_s(draw, env, 0)]]
+    if k == "strfn" and draw(st.integers(0, 2)) == 1:
+        fn = draw(st.sampled_from(["regex", "exact"]))
+        rx = ["rx", draw(st.sampled_from(["^a", "b+", "[A-Z]", "a.+e$", "^[a-z]+$", "o|a", "r[0-9]", "^(ca|do)", "p{2}"]))]
+        v = expr_s(draw, env, depth - 1)
+        return ["f", fn, [], [rx, v] if draw(st.booleans()) else [v, rx]]
     if k == "strfn":
         fn = draw(st.sampled_from(["starts_with", "min_length", "max_length", "too_long", "too_short"]))
         if fn == "starts_with":
